@@ -113,8 +113,8 @@ void WebSocketServer::process(Socket& client, const Dic<String>& headers)
 		"Connection: Upgrade\r\n"
 		"Sec-WebSocket-Accept: %s\r\n", *digest);
 
-	if (headers.has("Sec-Websocket-Protocol"))
-		client << "Sec-Websocket-Protocol: chat\r\n";
+	if (headers.has("Sec-Websocket-Protocol")) // there is no API to choose: agree to the first sub-protocol the client offers, never to one it did not offer
+		client << "Sec-WebSocket-Protocol: " + headers["Sec-Websocket-Protocol"].split(",")[0].trimmed() + "\r\n";
 	client << "\r\n";
 
 	WebSocket ws(client, false);
